@@ -389,6 +389,12 @@ static void prims(ygm::comm& w) {
   BR("all_reduce_max", w.all_reduce_max(v));
   BR("all_reduce", w.all_reduce(s, [](const std::string& a, const std::string& c) { return a + c; }));
 #undef BR
+  // cf_barrier() is a barrier: no rank leaves before every rank has entered (ranks enter skewed: the higher the rank the later)
+  for (int k = 0; k < 3; ++k) {
+    w.barrier();
+    for (int i = 0; i < g_rank * 4; ++i) w.local_progress();
+    hc::ev("cfb+ " + std::to_string(k)); w.cf_barrier(); hc::ev("cfb- " + std::to_string(k));
+  }
 }
 
 template <class T> void type_line(const char* name) {
